@@ -12,6 +12,8 @@ pub struct PreProcessor<T: TokenStream> {
     token_stream: T,
     macros: HashSet<EcoString>,
     error: Option<EcoString>,
+    /// conditionals whose enabled branch is being delivered and whose `#endif` has not been seen yet
+    open_conditionals: usize,
 }
 
 impl<T: TokenStream> TokenStream for PreProcessor<T> {
@@ -42,6 +44,7 @@ impl<T: TokenStream> PreProcessor<T> {
             token_stream,
             macros: HashSet::new(),
             error: None,
+            open_conditionals: 0,
         }
     }
 
@@ -60,11 +63,21 @@ impl<T: TokenStream> PreProcessor<T> {
             T![#else] => self.process_else(),
             T![#endif] => self.process_endif(),
             T![#define] => self.process_define(),
+            TokenKind::Eof => {
+                // the text ends inside a conditional: the message waits for `take_error`
+                if self.open_conditionals > 0 && self.error.is_none() {
+                    self.open_conditionals = 0;
+                    self.error("reached EOF without matching #endif");
+                }
+                TokenKind::Eof
+            }
             kind => kind,
         }
     }
 
     fn error(&mut self, message: impl Into<EcoString>) -> TokenKind {
+        // the token is reported with this message; one the lexer parked for a part of it is dropped
+        let _ = self.token_stream.take_error();
         self.error = Some(message.into());
         TokenKind::Error
     }
@@ -79,7 +92,13 @@ impl<T: TokenStream> PreProcessor<T> {
                 if let (IfKind::Defined, false) | (IfKind::NotDefined, true) =
                     (if_kind, macro_defined)
                 {
-                    self.eat_until_else_or_endif();
+                    // skipped up to `#else` (the else branch is delivered and still needs its
+                    // `#endif`), up to `#endif` (closed) or up to the end of the text (reported)
+                    if self.eat_until_else_or_endif() == SkipEnd::Else {
+                        self.open_conditionals += 1;
+                    }
+                } else {
+                    self.open_conditionals += 1;
                 }
                 TokenKind::PreProcessor
             }
@@ -91,11 +110,17 @@ impl<T: TokenStream> PreProcessor<T> {
     }
 
     fn process_else(&mut self) -> TokenKind {
-        self.eat_until_else_or_endif();
+        // the branch that was delivered ends here; its conditional is closed by the `#endif`
+        // (or reported at the end of the text) inside the skip
+        self.open_conditionals = self.open_conditionals.saturating_sub(1);
+        if self.eat_until_else_or_endif() == SkipEnd::Else {
+            self.open_conditionals += 1;
+        }
         TokenKind::PreProcessor
     }
 
     fn process_endif(&mut self) -> TokenKind {
+        self.open_conditionals = self.open_conditionals.saturating_sub(1);
         TokenKind::PreProcessor
     }
 
@@ -121,9 +146,9 @@ impl<T: TokenStream> PreProcessor<T> {
         }
     }
 
-    fn eat_until_else_or_endif(&mut self) {
+    fn eat_until_else_or_endif(&mut self) -> SkipEnd {
         let mut depth = 1;
-        loop {
+        let end = loop {
             match self.token_stream.eat() {
                 T![#ifdef] | T![#ifndef] => {
                     depth += 1;
@@ -131,17 +156,32 @@ impl<T: TokenStream> PreProcessor<T> {
                 T![#endif] if depth >= 2 => {
                     depth -= 1;
                 }
-                T![#else] | T![#endif] if depth == 1 => {
-                    break;
+                T![#else] if depth == 1 => {
+                    break SkipEnd::Else;
+                }
+                T![#endif] if depth == 1 => {
+                    break SkipEnd::Endif;
                 }
                 TokenKind::Eof => {
-                    self.error("reached EOF without matching #endif");
-                    break;
+                    break SkipEnd::Eof;
                 }
                 _ => {}
             }
+        };
+        // lexical errors inside skipped text are nobody's business
+        let _ = self.token_stream.take_error();
+        if end == SkipEnd::Eof {
+            self.error("reached EOF without matching #endif");
         }
+        end
     }
+}
+
+#[derive(PartialEq, Eq)]
+enum SkipEnd {
+    Else,
+    Endif,
+    Eof,
 }
 
 enum IfKind {
